@@ -187,7 +187,7 @@ PROPS = {
     "C12": {
         "title": "Results do not depend on storage, memory-manager or deletion policy",
         "rules": [on_program(rules_storage.rule_chunkptr), on_program(rules_storage.rule_layout), callers_for("C12"), on_program(rules_canon.rule_hash),
-                  on_program(rules_sibling.rule_small_hole_threshold), on_program(rules_storage.rule_threshold_first), on_program(rules_sibling.rule_large_hole_threshold)],
+                  on_program(rules_sibling.rule_small_hole_threshold), on_program(rules_storage.rule_threshold_first), on_program(rules_sibling.rule_large_hole_threshold), on_program(rules_storage.rule_singleton_scan)],
         "explanation": STRUCTURAL + ". C12: threshold clauses of the hole managers (the small-hole threshold is the same quantity at every site; the large-hole threshold is raised before the holes are re-classified against it), stale-chunk-pointer clause (a pointer from getChunkAddress is not used after a call that can reach requestChunk — a bug of exactly that shape shows under the reallocating managers and not under malloc style) "
                        "and layout clause (full-only, sparse-only and either-form writers and readers of a packed node agree on the region bases and on the hash recipe, so the storage flag cannot change what is read back).",
         "assumptions": ["the relational statement itself (same results under every policy combination) is a hyper-property over configurations and is not decided",
@@ -273,7 +273,7 @@ PROPS = {
     },
     "C20": {
         "title": "Saturation over a partitioned relation equals reachability over its union",
-        "rules": [rules_ftype.rule_mix_satur_events, on_program(rules_level.rule_position_kind), on_program(rules_guard.rule_flags_binding)],
+        "rules": [rules_ftype.rule_mix_satur_events, on_program(rules_level.rule_position_kind), on_program(rules_guard.rule_flags_binding), rules_orphan.rule_event_level],
         "explanation": STRUCTURAL + ". C20: cross-forest clause only — in saturation by events / by levels (sat_pregen.cc: saturate, saturateHelper and recFire of the forward and backward variants) and in the relation splitter and event bookkeeping (sat_relations.cc: splitMxd, findConfirmedStates, …) "
                        "every node handle is used only with the forest it belongs to (state-set forest, relation forest, result forest), on every path; and the position / value clause: where these functions walk a sparsely unpacked relation node, the position z and the value index(z) are kept apart (the identity pattern for a tested-but-unchanged variable is built for the value); and the overload clause: a storage-flag constant binds to a storage-flag parameter in the overload clang resolved (defect D18 in the relation splitter).",
         "assumptions": ["that the fixed point computed equals reachability under the union of the events is algorithmic semantics and is not decided", "the ownership engine is not armed in these files (they use the older compute-table idioms it does not model)",
